@@ -76,6 +76,57 @@ def rangeFrom (lo : Int) : Nat → List Int
 /-- the values of `i` in `for i := lo; i < hi; i++` (bounds not assigned by the body — the translator checks) -/
 def rangeInt (lo hi : Int) : List Int := rangeFrom lo (hi - lo).toNat
 
+/-! ### `for i, r := range s` over a STRING: UTF-8 decoding (trusted) -/
+
+/-- first rune of a string and its width in bytes — `utf8.DecodeRuneInString`: an invalid or truncated
+    encoding yields (U+FFFD, 1).  Arithmetic form of the bit operations (the ranges make them equal). -/
+def decodeRune : Bytes → Int × Nat
+  | [] => (65533, 1)
+  | b0 :: rest =>
+    let n0 := b0.toNat
+    if n0 < 0x80 then (Int.ofNat n0, 1)
+    else if n0 < 0xC2 then (65533, 1)
+    else if n0 < 0xE0 then
+      match rest with
+      | b1 :: _ =>
+        if 0x80 ≤ b1.toNat ∧ b1.toNat ≤ 0xBF then (Int.ofNat ((n0 - 0xC0) * 64 + (b1.toNat - 0x80)), 2) else (65533, 1)
+      | [] => (65533, 1)
+    else if n0 < 0xF0 then
+      match rest with
+      | b1 :: b2 :: _ =>
+        let lo := if n0 = 0xE0 then 0xA0 else 0x80
+        let hi := if n0 = 0xED then 0x9F else 0xBF
+        if lo ≤ b1.toNat ∧ b1.toNat ≤ hi ∧ 0x80 ≤ b2.toNat ∧ b2.toNat ≤ 0xBF then
+          (Int.ofNat ((n0 - 0xE0) * 4096 + (b1.toNat - 0x80) * 64 + (b2.toNat - 0x80)), 3)
+        else (65533, 1)
+      | _ => (65533, 1)
+    else if n0 < 0xF5 then
+      match rest with
+      | b1 :: b2 :: b3 :: _ =>
+        let lo := if n0 = 0xF0 then 0x90 else 0x80
+        let hi := if n0 = 0xF4 then 0x8F else 0xBF
+        if lo ≤ b1.toNat ∧ b1.toNat ≤ hi ∧ 0x80 ≤ b2.toNat ∧ b2.toNat ≤ 0xBF ∧ 0x80 ≤ b3.toNat ∧ b3.toNat ≤ 0xBF then
+          (Int.ofNat ((n0 - 0xF0) * 262144 + (b1.toNat - 0x80) * 4096 + (b2.toNat - 0x80) * 64 + (b3.toNat - 0x80)), 4)
+        else (65533, 1)
+      | _ => (65533, 1)
+    else (65533, 1)
+
+/-- the (byte offset, rune) pairs of `for i, r := range s`, starting at offset `off` (fuel ≥ length) -/
+def runesFrom : Nat → Int → Bytes → List (Int × Int)
+  | 0, _, _ => []
+  | _ + 1, _, [] => []
+  | fuel + 1, off, b :: rest =>
+    let d := decodeRune (b :: rest)
+    (off, d.1) :: runesFrom fuel (off + Int.ofNat d.2) ((b :: rest).drop d.2)
+
+/-- `for i, r := range s` -/
+def runes (s : Bytes) : List (Int × Int) := runesFrom s.length 0 s
+
+/-- (offset, byte) pairs from offset `off` -/
+def enumFrom (off : Int) : Bytes → List (Int × UInt8)
+  | [] => []
+  | b :: rest => (off, b) :: enumFrom (off + 1) rest
+
 /-! ### modelled standard-library functions (trusted) -/
 
 /-- `strings.HasPrefix(s, p)` / `bytes.HasPrefix` -/
